@@ -308,7 +308,7 @@ def body_dataset(ctx, kind, after_others=False):
     from emsarray.operations.triangulate import triangulate_dataset
     if after_others:
         _short_lived_triangulations()
-    which = int(ctx.int('variant', 0, 3))
+    which = 0 if kind == 'cf1d-big' else int(ctx.int('variant', 0, 3))
     if kind in ('mesh', 'mesh-small', 'mesh-attr'):
         names = list(SHAPES)
         # every shape, in an order that depends on the variant (so concave cells sit at different linear indexes)
@@ -368,6 +368,9 @@ def body_dataset(ctx, kind, after_others=False):
         lonb[~wet] = numpy.nan
         latb[~wet] = numpy.nan
         ds = builders.cf2d(ny, nx, lat=lat, lon=lon, lat_bounds=latb, lon_bounds=lonb)
+    elif kind == 'cf1d-big':
+        # more than 2**16 cells of one shape (a 260 x 270 grid): the last ones are triangulated like the first
+        ds = builders.cf1d(260, 270 + which, lat=numpy.linspace(-40.0, -10.0, 260), lon=numpy.linspace(110.0, 160.0, 270 + which))
     elif kind == 'cf1d-int':
         # whole-degree coordinates stored in integer types, odd spacings (cell edges are half-way values)
         ds = builders.cf1d(2, 3, lat=numpy.array([[-12, -9], [10, 11], [0, 3], [-1, 0]][which], dtype=['int32', 'int64', 'int16', 'int8'][which]),
@@ -382,7 +385,8 @@ def body_dataset(ctx, kind, after_others=False):
         ds['lon_bnds'] = (ds['lon_bnds'].dims, lonb)
         ds['lat_bnds'] = (ds['lat_bnds'].dims, latb)
     from harness import geomref
-    geomref.check(ctx, ds, ds.ems)
+    if kind != 'cf1d-big':
+        geomref.check(ctx, ds, ds.ems)
     polygons = ds.ems.polygons
     vertices, triangles, faces_of = triangulate_dataset(ds)
     ctx.check(vertices.ndim == 2 and vertices.shape[1] == 2 and triangles.ndim == 2 and triangles.shape[1] == 3 and len(faces_of) == len(triangles),
@@ -394,7 +398,14 @@ def body_dataset(ctx, kind, after_others=False):
     by_face = {}
     for t, f in zip(triangles, faces_of):
         by_face.setdefault(int(f), []).append(t)
+    sample = None
+    if kind == 'cf1d-big':
+        N = len(polygons)
+        sample = {0, 1, 2 ** 15, 2 ** 16 - 1, 2 ** 16, 2 ** 16 + 1, N - 271, N - 2, N - 1} | set(range(2 ** 16 + 100, N, 997))
+        ctx.check(len(triangles) == 2 * N and bool(numpy.isfinite(vertices).all()), 'result shapes')
     for n, poly in enumerate(polygons):
+        if sample is not None and n not in sample:
+            continue
         mine = by_face.get(n, [])
         if poly is None:
             ctx.check(not mine, 'cells without geometry produce no triangles')
@@ -404,6 +415,8 @@ def body_dataset(ctx, kind, after_others=False):
         check_cover(ctx, poly, tri_pts, sides, label=f'cell {n}: ')
         ring = {tuple(c) for c in poly.exterior.coords}
         ctx.check(all(p in ring for t in tri_pts for p in t), f'cell {n}: triangle corners are vertices of the cell')
+    if kind == 'cf1d-big':
+        return
     # asked again - after the caller has scribbled over what it was given - the answer is the same
     kept = [numpy.array(a, copy=True) for a in (vertices, triangles, faces_of)]
     for a in (vertices, triangles, faces_of):
@@ -442,6 +455,7 @@ def cases(tier):
                        max_paths=50000, split=16)
     for kind in ('mesh', 'mesh-small', 'mesh-attr', 'cf2d', 'cf2d-dart', 'shoc_standard', 'cf1d', 'cf1d-int', 'sparse8') + (() if q else ('sparse16',)):
         yield Case(f'dataset:{kind}', body_dataset, dict(kind=kind), max_paths=20)
+    yield Case('dataset:cf1d-big', body_dataset, dict(kind='cf1d-big'), max_paths=2)
     for kind in ('mesh', 'cf2d-dart'):
         yield Case(f'dataset:{kind}:after-other-datasets', body_dataset, dict(kind=kind, after_others=True), max_paths=20)
 
